@@ -485,6 +485,9 @@ func (d *Decls) queryObl(o *Obligation, wantModel bool) string {
 		if c.Goal == "true" {
 			continue
 		}
+		if n > len(c.Assume) {
+			n = len(c.Assume)
+		}
 		parts := append([]string(nil), c.Assume[n:]...)
 		parts = append(parts, not(c.Goal))
 		alts = append(alts, and(parts...))
